@@ -245,7 +245,11 @@ func convertAssignInt64(d *int64, t engine.Term, env *engine.Env) error {
 func convertAssignFloat32(d *float32, t engine.Term, env *engine.Env) error {
 	switch t := env.Resolve(t).(type) {
 	case engine.Float:
-		*d = float32(t)
+		f := float32(t)
+		if math.IsInf(float64(f), 0) && !math.IsInf(float64(t), 0) {
+			return errConversion
+		}
+		*d = f
 		return nil
 	default:
 		return errConversion
